@@ -857,3 +857,189 @@ def config_verbatim(cx, iid):
                 continue
             for loc, node, ps in b.field_writes(r"arg1\.config(\..*)?"):
                 inst.violation(b.path, "write of " + ps, "%s rewrites the endpoint's configuration after construction" % b.path.split("::")[-1], at=b.span_at(loc))
+
+
+def window_pass_guard(cx, iid):
+    """T1: PacketReceiver::receive moves the window base past an entry only if the entry's data flag is clear (the
+    packet has been delivered or was a dud whose flag the delivery loop cleared).  Passing a held packet releases its
+    allocation while its bytes stay in the delivery entries, and the stale slot is later taken for the packet that maps
+    to the same index one window later (fix ccdb498)."""
+    R = cx.R
+    with cx.instance(iid, "T1 GUARD", "in receive(), every step of the new window base past an entry holds `data flag clear`", floor=1) as inst:
+        b = R.body("PacketReceiver::receive")
+        fa = cx.fa(b)
+        aw = list(b.calls("PacketReceiver::advance_window"))
+        if len(aw) != 1:
+            inst.violation(b.path, "advance_window", "expected one advance_window call in receive (anchor), found %d" % len(aw))
+            return
+        from rules import root_local
+        n = root_local(b, aw[0][1]["args"][1])
+        if n is None:
+            inst.violation(b.path, "new base", "the id handed to advance_window is not a local (anchor)")
+            return
+        steps = 0
+        for loc, kind, node in b.defs.get(n, []):
+            if kind != "assign":
+                continue
+            v = show(b.rvalue_expr(node["rv"]))
+            if v == "arg1.base_id":
+                continue
+            steps += 1
+            inst.site(b, loc, "new_base_id = " + v[:60])
+            good, bad = dnf_holds(fa.at(loc), [[r"eq\(0,bitand\(arg1\.data_flags\[.*\],shl\(1,.*\)\)\)"]])
+            if not good:
+                inst.violation(b.path, "window base step", "the new window base is moved to `%s` without the entry's data flag having been tested clear: the window passes a packet whose data is still held" % v[:60], at=b.span_at(loc))
+        if steps == 0:
+            inst.violation(b.path, "window base step", "no step of the new window base found in receive (anchor)")
+
+
+def forget_shape(cx, iid):
+    """T7 + T1x: a sent frame stays acknowledgeable for exactly four round-trip times: step() forgets frames sent
+    strictly before now - 4*RTT (saturating), find_expiration_cutoff counts the leading frames with
+    send_time < threshold, and forget_frames culls exactly when that cutoff has moved past the *log's* base.
+    Forgetting sooner makes a genuine acknowledgement arrive for an unknown frame (the fragment is resent although it
+    was acknowledged); forgetting later lets a stale acknowledgement take effect (cancelled resends, an RTT sample of
+    the frame's age)."""
+    R = cx.R
+    with cx.instance(iid, "T7 SHAPE + T1x", "frames are forgotten iff sent strictly before now - 4*RTT; the cull runs iff the cutoff differs from the frame log's base", floor=4) as inst:
+        st = R.body("half_connection::HalfConnection::step")
+        calls = [(l, st.call_expr(t)) for l, t in st.calls("FrameQueue::forget_frames")]
+        if len(calls) != 1:
+            inst.violation(st.path, "forget_frames", "expected one forget_frames call in step() (anchor), found %d" % len(calls))
+        for l, ce in calls:
+            from rules import canon_value
+            th = show(canon_value(cx, st, ce[2][1]))
+            inst.site(st, l, "threshold = " + th[:160])
+            NOW = r"cast<u64>\(Duration::as_millis\(Instant::sub\(Instant::now\(\),arg1\.time_base\)\)\)"
+            RTT = r"Option::unwrap_or\(SendRateComp::rtt_ms\(arg1\.send_rate_comp\),half_connection::INITIAL_RTT_ESTIMATE_MS\)"
+            if not re.fullmatch(r"u64::saturating_sub\(%s,mul\((?:4,%s|%s,4)\)\)" % (NOW, RTT, RTT), th):
+                inst.violation(st.path, "forget threshold", "step() forgets frames sent before `%s`; expected now_ms.saturating_sub(4 * rtt_ms)" % th[:200], at=st.span_at(l))
+        fc = R.body("FrameLog::find_expiration_cutoff")
+        fa = cx.fa(fc)
+        incs = 0
+        for n, ds in fc.defs.items():
+            for loc, kind, node in ds:
+                if kind != "assign" or len(ds) < 2:
+                    continue
+                v = show(fc.rvalue_expr(node["rv"]))
+                if re.fullmatch(r"u32::wrapping_add\(var%d,1\)" % n, v):
+                    incs += 1
+                    inst.site(fc, loc, "cutoff += 1")
+                    alts = fa.at(loc) or []
+                    good, _ = dnf_holds(alts, [[r"lt\(Iter::next\(var\d+\)@Some\.0\.send_time_ms,arg2\)"]])
+                    if not good:
+                        inst.violation(fc.path, "expiry test", "a frame is counted as expired without `send_time_ms < threshold` (a frame sent at the threshold instant, e.g. at t = 0 while the threshold is still 0, must stay known)", at=fc.span_at(loc))
+        tw = None
+        if incs == 0 and fc.is_single_def(0):
+            # the same count spelled with iterator combinators: base_id + take_while(|f| f.send_time_ms < threshold).count()
+            rv = show(fc.local_expr(0))
+            m = re.fullmatch(r"u32::wrapping_add\(arg1\.base_id,cast<u32>\(Iterator::count\(Iterator::take_while\(VecDeque::iter\(arg1\.frames\),closure:(\S+?)\{arg2\}\)\)\)\)", rv)
+            if m:
+                try:
+                    tw = show(R.body(m.group(1)).local_expr(0))
+                except Exception:
+                    tw = None
+                inst.site(fc, None, "cutoff = base_id + take_while(%s).count()" % tw)
+                if tw != "lt(arg2.send_time_ms,arg1.0)":
+                    inst.violation(fc.path, "expiry test", "find_expiration_cutoff counts the leading frames with `%s`; expected send_time_ms < threshold" % tw)
+        if incs != 1 and tw is None:
+            inst.violation(fc.path, "cutoff", "expected one counting step in find_expiration_cutoff (anchor), found %d" % incs)
+        ret = show(fc.local_expr(0)) if fc.is_single_def(0) else None
+        ff = R.body("FrameQueue::forget_frames")
+        ffa = cx.fa(ff)
+        D = r"u32::wrapping_sub\(FrameLog::find_expiration_cutoff\(arg1\.frame_log,arg2\),FrameLog::base_id\(arg1\.frame_log\)\)"
+        culls = call_sites(ff, "FrameQueue::cull_log_entries")
+        for l, lab in culls:
+            inst.site(ff, l, lab[:100])
+            if not re.fullmatch(r"FrameQueue::cull_log_entries\(arg1,FrameLog::find_expiration_cutoff\(arg1\.frame_log,arg2\),arg3\)", lab) and "(…)" not in lab:
+                inst.violation(ff.path, "cull argument", "forget_frames culls up to `%s`, expected the expiration cutoff" % lab[:120], at=ff.span_at(l))
+        if len(culls) != 1:
+            inst.violation(ff.path, "cull_log_entries", "expected one cull site in forget_frames (anchor)")
+        else:
+            tl = {culls[0][0].bb}
+            for (x, y, lab), lits in ffa.edge_lits.items():
+                # an edge that leaves the path to the cull must be the `cutoff == log base` edge, and nothing else
+                if _reaches(ff, y, tl) or not _reaches(ff, x, tl):
+                    continue
+                inst.site(ff, Loc(x, 0), "edge that skips the cull: " + " ".join(lits)[:120])
+                C_, B_ = r"FrameLog::find_expiration_cutoff\(arg1\.frame_log,arg2\)", r"FrameLog::base_id\(arg1\.frame_log\)"
+                if not any(re.fullmatch(r"eq\(0,%s\)" % D, z) or re.fullmatch(r"eq\((?:%s,%s|%s,%s)\)" % (C_, B_, B_, C_), z) for z in lits):
+                    inst.violation(ff.path, "cull skipped", "forget_frames skips the cull under `%s`; expected only when the cutoff equals the frame log's base" % " ".join(lits)[:200])
+
+
+def _reaches(b, x, targets):
+    seen, st = set(), [x]
+    while st:
+        z = st.pop()
+        if z in targets:
+            return True
+        if z in seen:
+            continue
+        seen.add(z)
+        st.extend(y for y, _ in b.succ[z])
+    return False
+
+
+def packet_ack_exact(cx, iid):
+    """T1x: PacketSender::acknowledge applies every acknowledgement whose base lies in [base, next] — including the one
+    that reports a completely full window consumed — and refuses only ids outside the id space or beyond what was sent.
+    A further refusal (e.g. `delta >= window_size`) leaves a full packet window closed for good once the intermediate
+    acknowledgements were lost."""
+    R = cx.R
+    with cx.instance(iid, "T1x EXACT-GUARD", "PacketSender::acknowledge processes the ack exactly under is_valid(id) and id - base <= next - base", floor=1) as inst:
+        b = R.body("PacketSender::acknowledge")
+        fa = cx.fa(b)
+        Ls = b.loops()
+        if len(Ls) != 1:
+            inst.violation(b.path, "release loop", "expected one release loop in acknowledge (anchor), found %d" % len(Ls))
+            return
+        allowed = [r"packet_id::is_valid\(arg2\)", r"le\(packet_id::sub\(arg2,arg1\.base_id\),packet_id::sub\(arg1\.next_id,arg1\.base_id\)\)"]
+        alts = fa.at_loop_entry(Ls[0]) or []
+        inst.site(b, Loc(Ls[0]["header"], 0), "release loop entered under %s" % [sorted(a) for a in alts][:2])
+        if not alts:
+            inst.violation(b.path, "release loop", "no facts at the release loop (anchor)")
+        for alt in alts:
+            for lit in sorted(alt):
+                if "<=>" in lit or ":=" in lit:
+                    continue
+                if re.search(r"\barg2\b", lit) and not any(re.fullmatch(a, lit) for a in allowed):
+                    inst.violation(b.path, "extra condition on the acknowledged base", "acknowledge() applies an acknowledgement only under `%s` as well: a base it should accept (anything from the current base up to next_id, a full window included) is refused" % lit[:160])
+            for a in allowed:
+                if not any(re.fullmatch(a, lit) for lit in alt):
+                    inst.violation(b.path, "missing refusal", "the release loop is entered without `%s`" % a.replace("\\", ""))
+
+
+def frame_forward_exact(cx, iid):
+    """T1x + T2: a data / ack / sync frame that reaches an Active connection is handed to its HalfConnection
+    unconditionally: the forwarding call is reached on every path through the Active arm, and nothing about the
+    frame's contents decides whether it is forwarded (validation is the half connection's business: an ack frame
+    without ack groups still carries the window bases; the largest packet id is a valid base)."""
+    R = cx.R
+    table = [(side, h, "HalfConnection::handle_%s_frame" % k) for side in ("client::Client", "server::Server") for h, k in (("handle_data", "data"), ("handle_ack", "ack"), ("handle_sync", "sync"))]
+    with cx.instance(iid, "T1x EXACT-GUARD + T2", "each of the six frame handlers forwards to the half connection on every path of its Active arm and under no condition on the frame", floor=6) as inst:
+        for side, h, callee in table:
+            b = R.body("%s::%s" % (side, h))
+            fa = cx.fa(b)
+            fw = list(b.calls(callee))
+            if len(fw) != 1:
+                inst.violation(b.path, callee, "expected one forwarding call (anchor), found %d" % len(fw))
+                continue
+            loc, t = fw[0]
+            inst.site(b, loc, "%s forwards to %s" % (h, callee.split("::")[-1]))
+            from rules import root_local
+            fr = root_local(b, t["args"][-1])
+            frx = re.compile(r"\barg%d\b" % fr) if fr is not None and 1 <= fr <= b.argc else None
+            for alt in fa.at(loc) or []:
+                for lit in sorted(alt):
+                    if "<=>" in lit or ":=" in lit:
+                        continue
+                    if frx is not None and frx.search(lit):
+                        inst.violation(b.path, "forwarding conditioned on the frame", "%s::%s forwards the frame only under `%s`: whether a frame is applied is decided by the half connection, not by the endpoint" % (side.split("::")[-1], h, lit[:140]), at=b.span_at(loc))
+            hit = False
+            for (x, y, lab), lits in fa.edge_lits.items():
+                if any(re.fullmatch(r"is\(.*state,Active\)", z) for z in lits):
+                    hit = True
+                    if b.reach_exit_avoiding(Loc(y, -1), [loc]) is not None:
+                        inst.violation(b.path, "Active arm without forwarding", "%s::%s can leave its Active arm without handing the frame to the half connection" % (side.split("::")[-1], h), at=b.span_at(loc))
+            if not hit:
+                inst.violation(b.path, "Active arm", "no Active arm found in %s (anchor)" % h)
